@@ -18,7 +18,8 @@ from ..prog import registry
 PROP = "C17"
 LEVEL = "exploration"
 RULE = ("exhaustive cross product name x schema(None/str/list/tuple/Schema/nested) x alias x temporal(none/for_/for_portion) x "
-        "query class for tables: all ordered pairs, sampled triples; all pairs of aliased queries / CTEs / builders over "
+        "query class for tables, each aliased variant also reached through the object's history (used un-aliased: hashed, in a "
+        "set, starred; then as_()): all ordered pairs, sampled triples; tables named like the other field's column (x.y / y.x); all pairs of aliased queries / CTEs / builders over "
         "alias x FROM variants; expressions over fields of 1-3 tables with overlapping column names in every operand order "
         "(exhaustive for 2-3 operands, random deeper). non-trivial pair = the two objects differ in at least one attribute "
         "or are distinct objects that compare equal; distinct = pair of variant indexes / expression shape")
@@ -49,6 +50,23 @@ def table_variants():
                                 t = t.for_portion(reg["SystemTimeValue"]().from_to("2020", "2021"))
                             return t
                         out.append(({"name": name, "schema": sn, "alias": alias, "temporal": temporal, "qc": qc}, mk))
+                    if alias is not None:
+                        # the same table reached through the object's history: built un-aliased, hashed / put in a set / asked for
+                        # its star, and only then aliased with the builder method (a copy of the used object)
+                        def mk2(name=name, sf=sf, alias=alias, temporal=temporal):
+                            t = T(name, schema=sf())
+                            hash(t)
+                            assert t in {t}
+                            t.star
+                            if temporal == "for":
+                                t = t.for_(reg["SystemTimeValue"]() == "2020-01-01")
+                            elif temporal == "for2":
+                                t = t.for_(reg["SystemTimeValue"]() == "1999-09-09")
+                            elif temporal == "portion":
+                                t = t.for_portion(reg["SystemTimeValue"]().from_to("2020", "2021"))
+                            hash(t)
+                            return t.as_(alias)
+                        out.append(({"name": name, "schema": sn, "alias": alias, "temporal": temporal, "qc": None, "via": "used-then-as_"}, mk2))
     return out
 
 
@@ -115,6 +133,13 @@ def cases(tier, seed, shard, nshards):
     for kind in ("aggfilter", "over", "anorder", "tuple", "like", "in"):
         for (t1, c1), (t2, c2) in itertools.product(itertools.product(tabs, cols), repeat=2):
             shapes.append({"k": "expr", "e": [kind, ["f", t1, c1], ["f", t2, c2]]})
+    # mirrored names: column named like the other field's table, columns named like their own table
+    mt = ["x", "y"]
+    for (t1, c1), (t2, c2) in itertools.product(itertools.product(mt, ["x", "y"]), repeat=2):
+        for op in ("==", "+", "and", "fn", "tuple"):
+            shapes.append({"k": "expr", "e": [op, ["f", t1, c1], ["f", t2, c2]]})
+    for (t1, c1), (t2, c2), (t3, c3) in itertools.product(itertools.product(["x", "y"], ["x", "y"]), repeat=3):
+        shapes.append({"k": "expr", "e": ["and", ["==", ["f", t1, c1], ["f", t2, c2]], ["==", ["f", t3, c3], ["c", 1]]]})
     for s in shapes:
         k += 1
         if k % nshards == shard:
@@ -130,7 +155,7 @@ def cases(tier, seed, shard, nshards):
 def random_expr(rnd, depth):
     if depth <= 0 or rnd.random() < 0.25:
         if rnd.random() < 0.85:
-            return ["f", rnd.choice(["a", "b", "c", "a2"]), rnd.choice(["x", "y", "z"])]
+            return ["f", rnd.choice(["a", "b", "c", "a2", "x", "y"]), rnd.choice(["x", "y", "z"])]
         return ["c", rnd.choice([1, "s", None])]
     op = rnd.choice(["==", "+", "-", "and", "or", "fn", "case", "in", "between", "neg", "not", "isnull", "alias",
                      "all", "extract", "aggfilter", "over", "anorder", "cast", "tuple", "like", "period"])
@@ -349,7 +374,10 @@ def run_triple(case, mon):
 def run_expr(case, mon):
     reg = registry()
     T = reg["Table"]
-    tables = {"a": T("ta"), "b": T("tb"), "c": T("tc"), "a2": T("ta", alias="z")}
+    tables = {"a": T("ta"), "b": T("tb"), "c": T("tc"), "a2": T("ta", alias="z"),
+              # tables named like the columns: "x"."y" next to "y"."x", and columns named like their table
+              # (an alias equal to another table's name is not used: the two sources would carry the same qualified name)
+              "x": T("x"), "y": T("y")}
     refs = set()
     try:
         e = build_expr(case["e"], tables, refs)
@@ -443,7 +471,51 @@ def _consumer_returning_temporal():
         return "returning-validation", False, "RETURNING a column of an equal table (== is True) was rejected"
 
 
+def _consumer_self_join_alias_after_hash():
+    """A self-joined table is hashed during validation and then given its automatic alias in place: afterwards it must hash and
+    compare like an independently built table of that name and alias."""
+    reg = registry()
+    T = reg["Table"]
+    base, item = T("t"), T("t")
+    hash(item)
+    seen = {item}
+    q = reg["Query"].from_(base).select(base.a).join(item).on(base.id == item.parent)
+    twin = T("t", alias=item.alias)
+    ok = item.alias is not None and (item == twin) and hash(item) == hash(twin) and (twin in {item}) == any(twin == s for s in [item])
+    return "auto-alias-rehash", ok, "self-joined table alias=%r hash(item)==hash(twin): %s" % (item.alias, hash(item) == hash(twin))
+
+
+def _consumer_star_after_hashed_alias():
+    """base table used (hashed, starred) before .as_(): selecting alias.* then alias.col must drop the column (same table)."""
+    reg = registry()
+    T = reg["Table"]
+    base = T("abc")
+    hash(base)
+    reg["Query"].from_(base).select(base.star, base.foo).get_sql()
+    a = base.as_("a")
+    q = reg["Query"].from_(a).select(a.star, T("abc", alias="a").foo)
+    sql = q.get_sql()
+    return "star-selection", '"foo"' not in sql, sql
+
+
+def _consumer_join_mirrored_names(order):
+    """child.parent = parent.child with only one of the two tables in the query: the join validation must see both tables."""
+    reg = registry()
+    T = reg["Table"]
+    child, parent, other = T("child"), T("parent"), T("other")
+    crit = (parent.child == child.parent) if order == 0 else (child.parent == parent.child)
+    try:
+        reg["Query"].from_(child).select(child.id).join(other).on(crit)
+        return "join-validation", False, "join criterion naming table parent (not in the query) was accepted (order %d)" % order
+    except reg["JoinException"]:
+        return "join-validation", True, ""
+
+
 CONSUMERS = [
+    ("self-join-alias-after-hash", _consumer_self_join_alias_after_hash),
+    ("star-after-hashed-alias", _consumer_star_after_hashed_alias),
+    ("join-mirrored-names-0", lambda: _consumer_join_mirrored_names(0)),
+    ("join-mirrored-names-1", lambda: _consumer_join_mirrored_names(1)),
     ("star-temporal", _consumer_star_temporal),
     ("foreign-same-column-0", lambda: _consumer_foreign_same_column(0)),
     ("foreign-same-column-1", lambda: _consumer_foreign_same_column(1)),
